@@ -109,16 +109,18 @@ int main(int argc, char **argv) {
     int main_status = -1;
     int live = 1;
 
-    while (live > 0) {
+    /* Run until the thread-group leader is reaped (its exit is reported after every other thread is
+     * gone). Counting live threads is not reliable: a new thread's first stop may be seen before its
+     * parent's clone event, and an exit before either. */
+    (void)live;
+    for (;;) {
         pid_t pid = waitpid(-1, &st, __WALL);
         if (pid < 0) {
             if (errno == EINTR) continue;
             break;
         }
         if (WIFEXITED(st) || WIFSIGNALED(st)) {
-            if (pid == child) { main_status = st; }
-            live--;
-            if (pid == child) break;
+            if (pid == child) { main_status = st; break; }
             continue;
         }
         if (!WIFSTOPPED(st)) continue;
